@@ -39,6 +39,12 @@ def make(desc):
     if desc.get("file"):
         net = Network(filelist=desc["file"], fileformats=desc["format"], grain_model=desc.get("grain_model", ""),
                       required_species=list(desc.get("required", [])), **kw)
+    elif desc.get("network_first"):
+        # the documented API flow: the network is created with its own lists and required species, reactions are added afterwards;
+        # nothing is installed by hand - the network itself must parse every name under its own lists
+        net = Network(required_species=list(desc.get("required", [])), grain_model=desc.get("grain_model", ""), **kw)
+        for i, (r, p) in enumerate(desc["reactions"]):
+            net.add_reaction(Reaction(list(r), list(p), -1.0, -1.0, 1e-10, 0.5, 10.0, ReactionType.GAS_TWOBODY, idxfromfile=i))
     else:
         # as the render command does: the description's own lists are installed before any species is parsed
         if lists:
